@@ -17,7 +17,8 @@ PRELUDE = r"""
 #[derive(Copy, Clone, PartialEq, Eq, Structural)] pub struct TypeId { pub n: u32 }
 #[derive(Copy, Clone, PartialEq, Eq, Structural)] pub struct EnumId { pub n: u32 }
 impl EnumId { pub fn into(self) -> (r: TypeId) ensures r == (TypeId { n: self.n }) { TypeId { n: self.n } } }
-#[verifier::external_body] pub struct EnumDef { x: u8 }
+#[verifier::external_body] pub struct Variant { x: u8 }
+pub struct EnumDef { pub variants: Vec<Variant> }
 #[verifier::external_body] pub struct Tcx { x: u8 }
 pub struct EnumPath { pub tcx_id: EnumId }
 pub uninterp spec fn def_of(p: EnumPath, tcx: &Tcx) -> EnumDef;
@@ -72,7 +73,7 @@ def build(tier):
     vf.add("impl<'a> TyGenContext<'a> {\n")
     # ---- from native: the two consecutive arms of gen_c_to_dart_for_type
     it = src.item("impl TyGenContext<'_,'cx>::gen_c_to_dart_for_type", "fn")
-    a, b = arms(src, it, r"Type::Enum\(ref e\) if is_contiguous_enum\(e\.resolve\(self\.tcx\)\) => \{\s*let id", 2, "gen_c_to_dart_for_type")
+    a, b = arms(src, it, r"Type::Enum\(ref e\)(?: if [^=]*)? => \{\s*let id = e\.tcx_id\.into\(\);\s*let type_name[^;]*;\s*format!\(\"\{type_name\}\.values\[", 2, "gen_c_to_dart_for_type")
     frag = {"path": it["path"] + "#the two Type::Enum arms", "kind": "stmt", "start": a, "after_attrs": a, "end": b, "loops": []}
     org = {"file": F, "item": frag["path"], "line": src.line_of(a), "end_line": src.line_of(b)}
     p = Piece(src, frag)
